@@ -230,6 +230,9 @@ def gen(rng, tier):
                 cs.append(Case("hsalsa20 %s %s %s" % (hx(k), hx(inp), hx(cst)), cls="hsalsa20/const-degenerate"))
                 cs.append(Case("hchacha20 %s %s %s" % (hx(k), hx(inp), hx(cst)), cls="hchacha20/const-degenerate"))
         cs.append(Case("hchacha20 %s %s" % (hx(k), hx(inp)), cls="hchacha20"))
+    # inputs past 4 GiB (an aliased buffer, harness/src/ops_huge.rs): every length computation of the authenticator must hold beyond 32 bits
+    for L in ((2 ** 32 + 16 + 5,) if tier == "quick" else (2 ** 32 - 1, 2 ** 32, 2 ** 32 + 16 + 5, 2 ** 33 + 3)):
+        cs.append(Case("poly1305_huge %d" % L, cls="poly1305/over-4GiB", meta={"no_spec": True, "alloc_bound": 1 << 20, "why": "one-time authenticator of a %d-byte input" % L}))
     return cs
 
 
